@@ -110,6 +110,12 @@ func (n *RaftNode) Add(event []byte) (*balloon.Snapshot, error) {
 // As a result, it returns a bulk of shapshots, but previously it sends each snapshot
 // of the bulk to the agents channel, in order to be published/queried.
 func (n *RaftNode) AddBulk(bulk [][]byte) ([]*balloon.Snapshot, error) {
+	// An empty bulk must never be replicated: no replica can apply it (the
+	// FSM panics on it, now and on every later replay of the log).
+	if len(bulk) == 0 {
+		return nil, errors.New("unable to add an empty bulk of events")
+	}
+
 	// Hash events
 	var eventHashBulk []hashing.Digest
 	for _, event := range bulk {
